@@ -303,26 +303,31 @@ def parseHashmapAug {X Y : Type} (D : AugDec X Y) (c : Cell) (n : Nat) : PResult
       | some (kv, extras) =>
         if kv.any (fun p => p.1.isEmpty) then .err else .dict (intKeys kv, extras)
 
-/-- result of `Slice.load_hashmap_aug_e` -/
+/-- result of `Slice.load_hashmap_aug_e` (with a `y_deserializer`, as every caller in tlb/ passes one) -/
 inductive AugE (X Y : Type) where
   | err
   | none                                   -- parse_hashmap_aug returned None (referenced root is exotic)
   | cell                                   -- the slice itself is special: returned as a cell
-  | empty (bits : Bits) (refs : List Cell) -- ({}, [self])
+  | empty (extra : Y)                      -- `ahme_empty$0 extra:Y` : ({}, [extra])
   | dict (kv : Dict X) (extras : List Y)
 
+/-- `ahme_empty$0 extra:Y` / `ahme_root$1 root:^(HashmapAug n X Y) extra:Y`: since fix f2933e1 the top-level extra is read
+(and dropped) after the root, so it must be readable; the result is what `parse_hashmap_aug` returns for the root. -/
 def loadHashmapAugE {X Y : Type} (D : AugDec X Y) (kind : Int) (bits : Bits) (refs : List Cell) (n : Nat) : AugE X Y :=
   if kind ≠ -1 then .cell
   else match bits with
   | [] => .err
-  | false :: rest => .empty rest refs
-  | true :: _ =>
+  | false :: rest =>
+    match D.decY (rest, refs) with
+    | none => .err
+    | some (y, _) => .empty y
+  | true :: rest =>
     match refs with
     | [] => .err
-    | c :: _ =>
+    | c :: more =>
       match parseHashmapAug D c n with
       | .err => .err
-      | .none => .none
-      | .dict (kv, ex) => .dict kv ex
+      | .none => (match D.decY (rest, more) with | none => .err | some _ => .none)
+      | .dict (kv, ex) => (match D.decY (rest, more) with | none => .err | some _ => .dict kv ex)
 
 end TonVerif.Model.Hashmap
